@@ -125,7 +125,7 @@ pub fn gen(rng: &mut Rng, tier: Tier) -> Scn {
         recv,
         fs_writer: rng.chance(0.15),
         cleanup_every: *rng.pick(&[0u32, 1, 7, 50]),
-        reencode: if rng.chance(0.15) { rng.range(1, 7) as u8 } else { 0 },
+        reencode: if rng.chance(0.15) { rng.range(1, 15) as u8 } else { 0 },
     }
 }
 
